@@ -63,6 +63,8 @@ fn main() {
         i += 1;
     }
     let code = match id.as_str() {
+        "C01" => engine::main_for(props::c01::C01, &opts),
+        "C02" => engine::main_for(props::c01::C02, &opts),
         "C13" => engine::main_for(props::c13::C13, &opts),
         _ => {
             eprintln!("unknown property {}", id);
